@@ -57,39 +57,60 @@ fn operation_of(body: &[u8]) -> u32 {
 /// responses are sent in the scripted `order` of request-ids. Outcome-level control only (no timing in oracles).
 pub struct Gate {
     n: usize,
-    order: Vec<u32>,
-    st: Mutex<(usize, usize)>, // (arrived, turn)
+    /// seeded bytes: who writes the next response segment among the connections still answering
+    schedule: Vec<u8>,
+    st: Mutex<GateState>,
     cv: std::sync::Condvar,
 }
 
+struct GateState {
+    arrived: usize,
+    active: std::collections::BTreeSet<u32>,
+    turn: usize,
+}
+
 impl Gate {
-    pub fn new(n: usize, order: Vec<u32>) -> Arc<Gate> {
-        Arc::new(Gate { n, order, st: Mutex::new((0, 0)), cv: std::sync::Condvar::new() })
+    pub fn new(n: usize, schedule: Vec<u8>) -> Arc<Gate> {
+        Arc::new(Gate { n, schedule, st: Mutex::new(GateState { arrived: 0, active: Default::default(), turn: 0 }), cv: std::sync::Condvar::new() })
     }
+    fn holder(&self, g: &GateState) -> Option<u32> {
+        if g.active.is_empty() {
+            return None;
+        }
+        let b = if self.schedule.is_empty() { 0 } else { self.schedule[g.turn % self.schedule.len()] as usize };
+        g.active.iter().nth(b % g.active.len()).copied()
+    }
+    /// all n requests in flight before anybody is answered
     fn arrive_and_wait_turn(&self, key: u32, stop: &AtomicBool) {
         let t0 = Instant::now();
         let mut g = self.st.lock().unwrap();
-        g.0 += 1;
+        g.arrived += 1;
+        g.active.insert(key);
         self.cv.notify_all();
-        loop {
-            let all_in = g.0 >= self.n;
-            let my_turn = self.order.get(g.1).map(|k| *k == key).unwrap_or(true) || !self.order.contains(&key);
-            if (all_in && my_turn) || stop.load(Ordering::SeqCst) || t0.elapsed() > Duration::from_secs(3) {
-                return;
-            }
+        while g.arrived < self.n && !stop.load(Ordering::SeqCst) && t0.elapsed() < Duration::from_secs(3) {
             g = self.cv.wait_timeout(g, Duration::from_millis(20)).unwrap().0;
+        }
+    }
+    /// the response segments of the concurrent connections are interleaved in the seeded order
+    fn segment_turn(&self, key: u32, stop: &AtomicBool) {
+        let t0 = Instant::now();
+        let mut g = self.st.lock().unwrap();
+        loop {
+            match self.holder(&g) {
+                Some(k) if k != key && g.active.contains(&key) && !stop.load(Ordering::SeqCst) && t0.elapsed() < Duration::from_secs(3) => {
+                    g = self.cv.wait_timeout(g, Duration::from_millis(5)).unwrap().0;
+                }
+                _ => {
+                    g.turn += 1;
+                    self.cv.notify_all();
+                    return;
+                }
+            }
         }
     }
     fn done(&self, key: u32) {
         let mut g = self.st.lock().unwrap();
-        if self.order.get(g.1) == Some(&key) {
-            g.1 += 1;
-        } else if let Some(p) = self.order.iter().position(|k| *k == key) {
-            // answered out of turn (after a time-out): never block the others on it
-            if p >= g.1 {
-                g.1 = g.1.max(p + 1).min(self.order.len());
-            }
-        }
+        g.active.remove(&key);
         self.cv.notify_all();
     }
 }
@@ -193,6 +214,9 @@ fn serve_inner<S: Read + Write>(stream: &mut S, raw: &TcpStream, scripts: &BTree
     loop {
         match server.next(usize::MAX) {
             Out::Data(d) => {
+                if let Some(g) = gate {
+                    g.segment_turn(k, stop);
+                }
                 if script.drip_ms > 0 {
                     std::thread::sleep(Duration::from_millis(script.drip_ms as u64));
                 }
